@@ -68,10 +68,11 @@ meta["caught_by"] = [p for p, r in results.items() if r["exit"] != 0 and r["viol
 meta["needs_to_manifest"] = open(os.path.join(src, "notes.md")).read()[:3000] if os.path.exists(os.path.join(src, "notes.md")) else ""
 dst = os.path.join(VERIF, "seeded", name)
 os.makedirs(dst, exist_ok=True)
-shutil.copy(patch, os.path.join(dst, "patch.diff"))
-shutil.copy(demo, os.path.join(dst, "seeded_demo.rs"))
-if os.path.exists(os.path.join(src, "notes.md")):
-    shutil.copy(os.path.join(src, "notes.md"), os.path.join(dst, "notes.md"))
+if os.path.abspath(src) != os.path.abspath(dst):
+    shutil.copy(patch, os.path.join(dst, "patch.diff"))
+    shutil.copy(demo, os.path.join(dst, "seeded_demo.rs"))
+    if os.path.exists(os.path.join(src, "notes.md")):
+        shutil.copy(os.path.join(src, "notes.md"), os.path.join(dst, "notes.md"))
 meta["confirmed"] = confirmed
 json.dump(meta, open(os.path.join(dst, "meta.json"), "w"), indent=1)
 print("CONFIRMED" if confirmed else "NOT CONFIRMED", "caught by:", meta["caught_by"])
